@@ -6,6 +6,7 @@ use vstd::prelude::*;
 use vstd::arithmetic::mul::*;
 use std::rc::Rc;
 verus! {
+//@export-begin
 //@import NC
 
 // ---- R10: types of other crates, opaque; only what do_matches reads is given a (trusted) accessor ------------------------
@@ -450,5 +451,6 @@ impl Selector {
     }
 //@end
 }
+//@export-end
 } // verus!
 fn main() {}
